@@ -71,6 +71,7 @@ type arpResp struct {
 	mac   []byte
 	delay time.Duration
 	pad   bool // answer padded to the 46-byte Ethernet minimum, as on a real wire
+	op1   bool // the owner defends its address with a packet in request form (opcode 1, e.g. a gratuitous ARP)
 }
 
 // variant switches on the features of the second stream: a client whose long hardware address begins with another
@@ -121,6 +122,36 @@ func (g *srvGen) variant(r2 *rand.Rand) int {
 			}
 		}
 	}
+	// pool shapes: a pool of 10-18 addresses most of which foreign hosts answer for, or a range of more than 1024 addresses
+	switch r2.Intn(8) {
+	case 0, 1:
+		c := &g.cfg
+		if hosts := ^c.maskU - 1; hosts >= 40 && c.hasRange {
+			n := uint32(10 + r2.Intn(9))
+			c.rangeB = c.netU + 10 + uint32(r2.Intn(int(hosts-30)))
+			c.rangeE = c.rangeB + n - 1
+			g.pool = nil
+			for a := c.rangeB; a <= c.rangeE; a++ {
+				g.pool = append(g.pool, a)
+			}
+			g.crowded = true
+		}
+	case 2:
+		c := &g.cfg
+		c.bits, c.netU, c.maskU = 16, 0x0a000000|uint32(1+r2.Intn(200))<<16, 0xffff0000
+		c.selfIP, c.router = c.netU+1, ipStr(c.netU+1)
+		c.hasRange, c.rangeB = true, c.netU+uint32(256*(1+r2.Intn(200)))+uint32(r2.Intn(256))
+		c.rangeE = c.rangeB + 1024 + uint32(r2.Intn(150))
+		c.statics, c.clientDNS, c.staticOnly = nil, map[string][]string{}, false
+		for _, cl := range g.clients {
+			cl.static = false
+		}
+		g.pool = nil
+		for a := c.rangeB; a <= c.rangeE; a++ {
+			g.pool = append(g.pool, a)
+		}
+	}
+	g.op1 = r2.Intn(3) == 0
 	// per-client settings for clients without a reserved address (they identify themselves by client identifier or not)
 	for _, c := range g.clients {
 		if !c.static && len(c.mac) == 6 && r2.Intn(2) == 0 {
@@ -215,6 +246,10 @@ func startServer(t *testing.T, cfg srvCfg) (*srvRun, error) {
 			binary.BigEndian.PutUint32(reply[14:], target)
 			copy(reply[18:24], f.Payload[8:14])
 			copy(reply[24:28], f.Payload[14:18])
+			if r.op1 {
+				reply[7] = 1
+				binary.BigEndian.PutUint32(reply[24:], target) // who-has X tell X
+			}
 			time.AfterFunc(r.delay, func() { s.seg.Inject(rsocks.KindARP, reply) })
 		}
 	}
@@ -365,6 +400,8 @@ func (cl *simClient) msg(typ byte, flags uint16, ciaddr uint32, extra ...wopt) w
 type srvGen struct {
 	r        *rand.Rand
 	r2       *rand.Rand // second stream: features added later draw from it, so that the histories of older seeds stay as they were
+	crowded  bool       // most pool addresses are answered for by foreign hosts
+	op1      bool       // owners defend their addresses with request-form ARP packets
 	cfg      srvCfg
 	clients  []*simClient
 	pool     []uint32
@@ -496,22 +533,41 @@ func (g *srvGen) next() ([]byte, []arpResp, *simClient, byte) {
 	}
 	var arp []arpResp
 	for _, a := range g.pool {
+		if g.crowded { // this stream must not disturb r: the draws below are made anyway
+			if g.r2.Intn(10) < 8 {
+				arp = append(arp, arpResp{ip: a, mac: []byte{0x02, 0xcc, 0, 0, 1, byte(a)}, delay: time.Duration(1+g.r2.Intn(500)) * time.Millisecond})
+			}
+		}
 		switch r.Intn(12) {
 		case 0:
-			arp = append(arp, arpResp{a, []byte{0x02, 0xcc, 0, 0, 0, byte(a)}, time.Duration(1+r.Intn(589)) * time.Millisecond, r.Intn(2) == 0})
+			arp = append(arp, arpResp{a, []byte{0x02, 0xcc, 0, 0, 0, byte(a)}, time.Duration(1+r.Intn(589)) * time.Millisecond, r.Intn(2) == 0, false})
 		case 1:
-			arp = append(arp, arpResp{a, cl.mac[:6], time.Duration(1+r.Intn(589)) * time.Millisecond, r.Intn(2) == 0})
+			arp = append(arp, arpResp{a, cl.mac[:6], time.Duration(1+r.Intn(589)) * time.Millisecond, r.Intn(2) == 0, false})
 		case 2:
-			arp = append(arp, arpResp{a, []byte{0x02, 0xcc, 0, 0, 0, byte(a)}, time.Duration(610+r.Intn(300)) * time.Millisecond, false})
+			arp = append(arp, arpResp{a, []byte{0x02, 0xcc, 0, 0, 0, byte(a)}, time.Duration(610+r.Intn(300)) * time.Millisecond, false, false})
 		}
 		if g.r2 != nil && g.r2.Intn(15) == 0 { // the server host itself answers for the address (an alias on the same interface)
-			own := arpResp{a, c.selfMAC, time.Duration(1+g.r2.Intn(589)) * time.Millisecond, false}
+			own := arpResp{a, c.selfMAC, time.Duration(1+g.r2.Intn(589)) * time.Millisecond, false, false}
 			if n := len(arp); n > 0 && arp[n-1].ip == a {
 				arp[n-1] = own // one responder per address
 			} else {
 				arp = append(arp, own)
 			}
 		}
+	}
+	if g.crowded || g.op1 { // one responder per address; some defend in request form
+		seenIP := map[uint32]bool{}
+		var uniq []arpResp
+		for _, a := range arp {
+			if !seenIP[a.ip] {
+				seenIP[a.ip] = true
+				if g.op1 && g.r2.Intn(2) == 0 {
+					a.op1 = true
+				}
+				uniq = append(uniq, a)
+			}
+		}
+		arp = uniq
 	}
 	bc := uint32(0xffffffff)
 	var m wmsg
